@@ -196,6 +196,9 @@ func (g *genRns) Block(w *World, b int) Block {
 		}
 	}
 	blk.Steps = g.net.Apply(rng, b, len(w.nodes), steps)
+	if len(w.nodes) == 1 && rng.Chance(1, 50) {
+		blk.Reimport = true // restart of the whole chain from its own exported genesis
+	}
 	return blk
 }
 
